@@ -366,20 +366,27 @@ func (r *refState) remove(ep int) {
 }
 
 // label qualifies a drop cause by when the drop happened relative to the step being judged: in
-// this very step (plain cause); in an earlier step after which every observation still was
-// consistent ("+resurfaced"); and, for removals only, in this round next to other successful
-// updates ("+concurrent-update": whether a removed endpoint comes back depends on which of the
-// two was applied first, which a plain removal does not).
+// this very step (plain cause) or in an earlier step after which every observation still was
+// consistent ("+resurfaced").
 func (r *refState) label(d dropInfo) string {
 	switch {
 	case d.seq < 0:
 		return d.cause
 	case d.seq < r.stepStart:
 		return d.cause + "+resurfaced"
-	case d.cause == "remove" && r.okCount-r.stepStart > 1:
-		return d.cause + "+concurrent-update"
 	}
 	return d.cause
+}
+
+// catalogueLabel: like label, and additionally, for a removal judged in a round with other
+// successful updates, "+concurrent-update": whether the removed endpoint comes back as a source
+// depends on which of the two was applied first, which a plain removal does not.
+func (r *refState) catalogueLabel(ep int, name string) string {
+	c := r.relatedDropCause(ep, name)
+	if c == "remove" && r.okCount-r.stepStart > 1 {
+		return c + "+concurrent-update"
+	}
+	return c
 }
 
 // beginStep marks the start of a step / round for label.
@@ -766,7 +773,7 @@ func judge(r *refState, o *observation, opt judgeOpts) []ev.Violation {
 					continue
 				}
 				if !r.models[i][s.Native] {
-					bad("stale-attribution/"+uniCause(r.relatedDropCause(i, s.Native))+"/unified-catalogue", "unified model %q (aliases %q) names ep%d as a source with native name %q, which the endpoint's last successful listing does not contain", um.ID, um.Aliases, i, s.Native)
+					bad("stale-attribution/"+uniCause(r.catalogueLabel(i, s.Native))+"/unified-catalogue", "unified model %q (aliases %q) names ep%d as a source with native name %q, which the endpoint's last successful listing does not contain", um.ID, um.Aliases, i, s.Native)
 				}
 			}
 		}
